@@ -28,12 +28,15 @@ def run_check(tier):
     for ps, ws in slices:
         part = mp.gen("MC_LoadScript", {"Mode": '"fields"', "MaxOps": 2, "Widths": ws, "Pads": mp.tla_set(ps)},
                       ["SentinelIntact", "UnchangedOnFailure", "Export"], "fields-w8-p%d-%s" % (ps[0], ws[1]), chk, timeout=3000, xmx="8g")
-        pp = mp.replay(part, mp.MEDIA_SEEKABLE + ["nonseek"], 8, "f8")
-        mp.judge(chk, pp, "MsgPack scripted load")
-        mp.validate_scope_states(chk, pp, "MsgPack scripted load")
-        chk.add_cases(len(pp), distinct_keys=((json.dumps(s["doc"]), json.dumps(s["root"]), json.dumps(s["pol"])) for s in part), validated=len(pp))
+        for lo in range(0, len(part), 50000):          # bounded memory: observations of 50k scenarios x 5 media at a time
+            pp = mp.replay(part[lo:lo + 50000], mp.MEDIA_SEEKABLE + ["nonseek"], 8, "f8")
+            mp.judge(chk, pp, "MsgPack scripted load")
+            mp.validate_scope_states(chk, pp, "MsgPack scripted load")
+            chk.add_cases(len(pp), validated=len(pp))
+            del pp
+        chk.add_cases(0, distinct_keys=((json.dumps(s["doc"]), json.dumps(s["root"]), json.dumps(s["pol"])) for s in part))
         scen8 = part[:50]
-        del pp, part
+        del part
     if not quick:
         # longer histories (up to 6 requests) by seeded simulation of the same state machine
         sim = mp.gen("MC_LoadScript", {"Mode": '"fields"', "MaxOps": 6, "Widths": "{0, 2}", "Pads": "{0, 3}"},
